@@ -44,3 +44,39 @@ PROPS["C03"] = {
     "thorough": [R("TestPropMatcher", 400000, shards=5, timeout=1500), R("TestPropMatcherRegexOnly", 400000, shards=4, timeout=1500),
                  R("TestPropPlaces", 40000, shards=5, timeout=1500), R("TestPropAggCache", 15000, shards=2, timeout=1500)],
 }
+
+PROPS["C09"] = {
+    "pkg": "c09", "level": "exploration",
+    "rule": ("rapid state machine over one nsqd.DiskQueue on tmpfs: put(m) with |m| in {0, tiny, around maxBytesPerFile-4, up to 3 segments}, "
+             "get (or, when the model is empty, a negative check that nothing arrives), close+reopen; maxBytesPerFile in {1..1000}, "
+             "syncEvery in {1..8, never}; oracle = slice model: every get returns the model head byte-for-byte, Depth() equals the model "
+             "length after every put / completed get / reopen, final reopen drains to exactly the model and then nothing. Non-trivial: "
+             "history with a reopen while messages are pending, a reopen directly after a put that rolled a segment, or a message larger "
+             "than a segment. Distinct = hash of the operation history (lengths included)."),
+    "level_text": "Model-based stateful property testing of the real DiskQueue on a real filesystem (tmpfs); thousands of generated histories, holds on all generated.",
+    "level_note": "syncTimeout fixed at 1h so syncs are count-driven; 'at rest' is observed via the verif-tagged delivered-done callback (the queue advances its read position asynchronously after handing a message over).",
+    "technique": "property-based testing (rapid state machine) against a reference FIFO model",
+    "assumptions": ["tmpfs behaves like the spool filesystem for create/write/rename/remove", "single consumer"],
+    "quick": [R("TestPropFIFO", 2500, steps=40)],
+    "thorough": [R("TestPropFIFO", 30000, shards=16, steps=60, timeout=2400)],
+}
+
+PROPS["C08"] = {
+    "pkg": "c08", "level": "fault_enumeration",
+    "rule": ("rapid generates histories over {put(m), get, clean close+reopen, crash+reopen-from-an-earlier-crash-point} for "
+             "maxBytesPerFile in {1..200}, syncEvery in {1..8, never}, |m| from 0 to 3 segments; the verif-tagged callback fires on the "
+             "queue's I/O goroutine after EVERY filesystem mutation (segment open/write/fsync, meta tmp create/write, meta rename, segment "
+             "remove, bad-file rename, rollover) and after every hand-over to the consumer; at each callback the directory is snapshotted "
+             "with exact counters. Afterwards EVERY snapshot of the history is recovered (restore, NewDiskQueue, put sentinel, drain to "
+             "sentinel) and the recovered run must be E[a:b) with handedAtLastSync<=a<=handedAtCrash, b>=writtenAtLastSync, byte-exact, "
+             "no hang. One evaluation = one (history, crash point) pair. Non-trivial: crash point strictly inside an operation (not its "
+             "last callback), after at least one segment rollover and one delivery. Distinct = hash(history, point index, label)."),
+    "level_text": ("Crash points are enumerated exhaustively per generated history (every filesystem mutation of every operation, incl. "
+                   "repeated crashes and crashes during recovery); histories and configurations are sampled by rapid."),
+    "level_note": ("Crash model = process death between two filesystem operations (completed operations visible, nothing torn), which is the "
+                   "property's model; power-loss reordering of un-fsynced data is out of scope. Enumeration is per sampled history, not over all histories."),
+    "technique": "property-based testing (rapid histories) + exhaustive fault injection at every filesystem-operation boundary via tagged callback",
+    "assumptions": ["tmpfs stands in for the spool filesystem", "syncTimeout=1h so syncs are count-driven and the I/O loop is a function of the history"],
+    "quick": [P("TestRegress"), R("TestPropCrashRecovery", 200, steps=30)],
+    "thorough": [P("TestRegress"), R("TestPropCrashRecovery", 1500, shards=16, steps=40, timeout=3000)],
+}
